@@ -289,20 +289,27 @@ impl<'ast, 'psess, 'c> ModResolver<'ast, 'psess> {
     ) -> Result<(), ModuleResolutionError> {
         match sub_mod_kind {
             SubModKind::External(mod_path, _, sub_mod) => {
-                self.file_map
-                    .entry(FileName::Real(mod_path))
-                    .or_insert(sub_mod);
+                self.insert_file_mod(mod_path, sub_mod);
             }
             SubModKind::MultiExternal(mods) => {
                 for (mod_path, _, sub_mod) in mods {
-                    self.file_map
-                        .entry(FileName::Real(mod_path))
-                        .or_insert(sub_mod);
+                    self.insert_file_mod(mod_path, sub_mod);
                 }
             }
             _ => (),
         }
         Ok(())
+    }
+
+    /// Only a module parsed from `mod_path` itself may stand for that file. For a file that
+    /// was already parsed, `find_external_module` and `find_mods_outside_of_ast` hand back a
+    /// clone of the *declaration's* module, whose span lies in the declaring file: formatting
+    /// it would write that file's text to `mod_path`.
+    fn insert_file_mod(&mut self, mod_path: PathBuf, sub_mod: Module<'ast>) {
+        let file_name = FileName::Real(mod_path);
+        if self.psess.span_to_filename(sub_mod.span) == file_name {
+            self.file_map.entry(file_name).or_insert(sub_mod);
+        }
     }
 
     fn visit_sub_mod_inner(
